@@ -104,6 +104,13 @@ func verifImplies(a, b bool) bool     { return !a || b }
 func verifObserve(tag string, v any) {}
 func verifStrEq(a, b string) bool     { return a == b }
 
+// stub programming / effect inspection: only meaningful under the symbolic engine
+func verifStubReturn(name string, vals ...any)        {}
+func verifEffectCount(name string) int                { return 0 }
+func verifEffectArg(name string, k, i int) any        { return nil }
+func verifEffectIndex(name string, k int) int         { return -1 }
+func verifCatchExit(f func()) int                     { f(); return -1 }
+
 var _ = fmt.Sprint
 var _ = constant.MakeInt64
 var _ = token.NoPos
